@@ -8,6 +8,8 @@ Arguments N.ltb : simpl never.
 Arguments N.eqb : simpl never.
 Arguments N.leb : simpl never.
 Arguments secs : simpl never.
+Arguments Nat.ltb : simpl never.
+Arguments Nat.eqb : simpl never.
 
 Ltac destr_world w :=
   destruct w as [cfg st hold ka3 crc auto proto [tcr_dl tcr_st] [th_dl th_st] [tka_dl tka_st]
